@@ -23,7 +23,10 @@ from verifkit.checks.engine_checks import _sanitize
 from verifkit.driver import Verdict
 from verifkit.driver import ViolationFound
 
-STATES = ('none', 'threads_only', 'process_only', 'threads_shutdown', 'process_shutdown', 'both')
+STATES = ('none', 'threads_only', 'process_only', 'threads_shutdown', 'process_shutdown', 'both',
+          'both_then_threads_shutdown', 'both_then_process_shutdown')
+# history states: every chart first runs with both pools ready, then the pool is shut down and the SAME chart runs again
+HISTORY = {'both_then_threads_shutdown': 'threads_shutdown', 'both_then_process_shutdown': 'process_shutdown'}
 THREAD_MISSING = ('none', 'process_only', 'threads_shutdown')
 PROCESS_MISSING = ('none', 'threads_only', 'process_shutdown')
 
@@ -100,8 +103,14 @@ class C17(EngineCheck):
 
     def examine(self, case):
         if case.get('registry_state'):
-            res = self._run_state(case['registry_state'], [case])[0]
-            return self._judge_state(case['registry_state'], case['program'], case['variant'], res)
+            state = case['registry_state']
+            res = self._run_state(state, [case])[0]
+            if state in HISTORY:
+                v1 = self._judge_state('both', case['program'], case['variant'], res['first'])
+                if v1.violations:
+                    return v1
+                return self._judge_state(HISTORY[state], case['program'], case['variant'], res['second'])
+            return self._judge_state(state, case['program'], case['variant'], res)
         if case.get('real_pools'):
             return self._real_one(case['program'], case['variant'])
         prog0, var = case['program'], case['variant']
@@ -248,12 +257,19 @@ class C17(EngineCheck):
                 with open(outp) as f:
                     results = json.load(f)
                 for pc, res in zip(progs, results):
-                    checked += 1
-                    verdict = self._judge_state(state, pc['program'], pc['variant'], res)
-                    rc = {'program': pc['program'], 'variant': pc['variant'], 'registry_state': state}
-                    stats.record(self, rc, verdict)
-                    if verdict.violations:
-                        raise ViolationFound(rc, verdict.violations)
+                    steps = [(state, res)] if state not in HISTORY else \
+                        [('both', res['first']), (HISTORY[state], res['second'])]
+                    for k, (st_, r_) in enumerate(steps):
+                        checked += 1
+                        verdict = self._judge_state(st_, pc['program'], pc['variant'], r_)
+                        if state in HISTORY:
+                            verdict.classes.append('chart-reused-after-pool-shutdown')
+                            verdict.violations = [(s_, f'[{state}, run {k + 1} of the same chart] {d_}')
+                                                  for s_, d_ in verdict.violations]
+                        rc = {'program': pc['program'], 'variant': pc['variant'], 'registry_state': state}
+                        stats.record(self, rc, verdict)
+                        if verdict.violations:
+                            raise ViolationFound(rc, verdict.violations)
         finally:
             shutil.rmtree(d, ignore_errors=True)
         stats.extra['registry_state_runs'] = stats.extra.get('registry_state_runs', 0) + checked
